@@ -149,13 +149,15 @@ func execMerge(p mprog, c *hx.Case) error {
 		}
 	})
 	defer verifhook.SetTuner(nil)
+	trk := hx.TrackDBs()
+	defer trk.Close()
 	fs := storage.NewMemoryFilesystem()
 	var keep []*dkv.DB // dead processes run no cleanups
 	defer func() {
 		// nothing of this case may still run when its databases become garbage
 		// (their cleanups delete files a late background compaction would read)
 		for _, db := range keep {
-			hx.WaitTasks(db.WaitOnTasks)
+			trk.Wait(db, db.WaitOnTasks)
 		}
 		runtime.KeepAlive(keep)
 	}()
@@ -202,7 +204,7 @@ func execMerge(p mprog, c *hx.Case) error {
 			dbs[i].Delete(k)
 			delete(model, string(k))
 		case "wait":
-			if err := hx.WaitTasks(dbs[i].WaitOnTasks); err != nil {
+			if err := trk.Wait(dbs[i], dbs[i].WaitOnTasks); err != nil {
 				return i, hx.Errf("background task failed: %v", err)
 			}
 		}
@@ -215,7 +217,7 @@ func execMerge(p mprog, c *hx.Case) error {
 				if _, err := db.Checkpoint(1)(); err != nil {
 					return hx.Errf("earlier checkpoint of old database %d: %v", i, err)
 				}
-				if err := hx.WaitTasks(db.WaitOnTasks); err != nil {
+				if err := trk.Wait(db, db.WaitOnTasks); err != nil {
 					return hx.Errf("background task failed: %v", err)
 				}
 			}
@@ -232,7 +234,7 @@ func execMerge(p mprog, c *hx.Case) error {
 		if err != nil {
 			return hx.Errf("checkpoint of old database %d: %v", i, err)
 		}
-		if err := hx.WaitTasks(db.WaitOnTasks); err != nil {
+		if err := trk.Wait(db, db.WaitOnTasks); err != nil {
 			return hx.Errf("background task failed: %v", err)
 		}
 		handles[i] = h
@@ -360,7 +362,7 @@ func execMerge(p mprog, c *hx.Case) error {
 		}
 	}
 	for _, db := range news {
-		if err := hx.WaitTasks(db.WaitOnTasks); err != nil {
+		if err := trk.Wait(db, db.WaitOnTasks); err != nil {
 			return hx.Errf("background task failed: %v", err)
 		}
 	}
@@ -375,7 +377,7 @@ func execMerge(p mprog, c *hx.Case) error {
 			if err != nil {
 				return hx.Errf("checkpoint of new database %d: %v", j, err)
 			}
-			if err := hx.WaitTasks(db.WaitOnTasks); err != nil {
+			if err := trk.Wait(db, db.WaitOnTasks); err != nil {
 				return hx.Errf("background task failed: %v", err)
 			}
 			ndb, err := open(fmt.Sprintf("again%d", j), to[j], []recovery.CheckpointHandle{h})
@@ -405,7 +407,7 @@ func execMerge(p mprog, c *hx.Case) error {
 			if err != nil {
 				return hx.Errf("checkpoint of new database %d: %v", j, err)
 			}
-			if err := hx.WaitTasks(db.WaitOnTasks); err != nil {
+			if err := trk.Wait(db, db.WaitOnTasks); err != nil {
 				return hx.Errf("background task failed: %v", err)
 			}
 			h2[j] = h
@@ -468,7 +470,7 @@ func execMerge(p mprog, c *hx.Case) error {
 			}
 		}
 		for _, db := range third {
-			if err := hx.WaitTasks(db.WaitOnTasks); err != nil {
+			if err := trk.Wait(db, db.WaitOnTasks); err != nil {
 				return hx.Errf("background task failed: %v", err)
 			}
 		}
